@@ -85,6 +85,9 @@ type c04Hist struct {
 	cb       bool
 	recvd    []c04Recvd // accepted receives (for replays; after an upgrade the receipts are gone and a replay runs its callback again)
 	nextRecv uint64
+	plannedDel  *big.Int          // delegation of the multicall contract while a mixed transaction is planned
+	undelegations int
+	mixedOrder  string            // plan of the mixed transaction being sent (S send, K staking, G gov, E erc20, F foreign)
 	hot         string            // wide histories: destination planted at 2^64-2 / 2^64-3
 	base        map[string]uint64 // planted counters: dst -> n-1
 	pendingTags []string // non-default field values of the call(s) being sent (counted when the send commits)
@@ -731,6 +734,9 @@ func (h *c04Hist) doTx(kind string, to common.Address, value *big.Int, data []by
 				h.r.Count("send.ok.wide")
 			}
 		}
+		if kind == "mixed" {
+			h.countMixed(out)
+		}
 		if kind == "send" && len(ps) == 1 {
 			for _, tg := range h.pendingTags {
 				h.r.Count("sendfield." + tg)
@@ -774,7 +780,7 @@ func (h *c04Hist) doTx(kind string, to common.Address, value *big.Int, data []by
 // the packet contract EMITTED (payload of the log, decoded with the contract ABI only), it is also sha256 of the bytes
 // of the chain's EventSendPacket, and the two byte strings are equal
 func (h *c04Hist) checkEmitted(ps []*packettypes.Packet, raws [][]byte, evs []packettypes.EventSendPacket) {
-	if h.selfCl || len(ps) != len(raws) || len(ps) != len(evs) {
+	if h.selfCl || len(ps) != len(raws) {
 		return
 	}
 	pk := h.w.A.App.XIBCKeeper.PacketKeeper
@@ -783,10 +789,10 @@ func (h *c04Hist) checkEmitted(ps []*packettypes.Packet, raws [][]byte, evs []pa
 		want := sha256.Sum256(raws[i])
 		got := pk.GetPacketCommitment(h.w.A.GetContext(), h.w.self, p.DstChain, p.Sequence)
 		if !bytes.Equal(got, want[:]) {
-			h.find("C04:commitment-not-hash-of-emitted-log", "stored commitment ≠ sha256(payload of the packet contract's PacketSent log)",
-				fmt.Sprintf("%s fee option in the emitted packet: see replay; commitment %x, sha256(emitted) %x", key, got, want[:]), "commitment = sha256(emitted packet bytes)")
+			h.find("C04:commitment-not-hash-of-emitted-log", "a PacketSent log of the packet contract in the receipt of a committed transaction has no commitment equal to sha256(its payload)",
+				fmt.Sprintf("%s commitment %x, sha256(emitted) %x", key, got, want[:]), "commitment = sha256(emitted packet bytes) for every emitted packet")
 		}
-		if !bytes.Equal(evs[i].Packet, raws[i]) {
+		if len(evs) == len(ps) && !bytes.Equal(evs[i].Packet, raws[i]) {
 			h.find("C04:event-bytes-differ-from-emitted-log", "EventSendPacket bytes ≠ bytes emitted by the packet contract", key, "the chain announces the packet the contract emitted")
 		}
 		h.r.Count("send.emitted-checked")
@@ -1259,6 +1265,8 @@ func (h *c04Hist) genOp(witness bool) {
 		data, val := w.ccPack(snd)
 		h.pendingTags = snd.tags
 		h.doTx("send", endpointcontract.EndpointContractAddress, val, data)
+	case x >= 43 && x < 50: // ONE receipt mixing bridge sends with staking / gov / ERC-20 / foreign logs
+		h.doMixed()
 	case x < 50: // several calls in ONE transaction through the multicall contract
 		h.pendingTags = nil
 		n := 2 + rg.Intn(2)
@@ -1332,6 +1340,7 @@ func (w *c04World) fund() {
 	p.NoBaseFee = true
 	w.A.App.FeeMarketKeeper.SetParams(ctx, p)
 	c04Must(w.A.App.XIBCKeeper.ClientKeeper.CreateClient(ctx, "tss-2", &tsstypes.ClientState{TssAddress: w.B.SenderAcc.String()}, &tsstypes.ConsensusState{}))
+	w.prepMixed()
 	w.coord.CommitBlock(w.A)
 }
 
@@ -1452,6 +1461,9 @@ func TestC04(t *testing.T) {
 	defer r.Close()
 	cb := c04ProbeCb(t)
 	c04RejectOwn = c04ProbeOwnName(t)
+	if r.Shard == 0 {
+		c04ScanHooks(r)
+	}
 	r.Extra["callback_on_branched_context"] = cb
 	r.Extra["create_client_rejects_own_name"] = c04RejectOwn
 	nh, hl := 40, 30
